@@ -288,7 +288,7 @@ def _mismatch_cfg(rng, cfg):
 
 def gen_plan(prop, tier, rng, i):
     thorough = tier == "thorough"
-    prof = {"maxcap": 600, "max_cont_cap": 6000}
+    prof = {"maxcap": 600, "max_cont_cap": 6000, "p_epoch_start": 0.03}
     cell = None
     if prop == "C07":
         cell = CELLS[i % len(CELLS)]
